@@ -126,22 +126,24 @@ def runCase (verb : String) : P String := do
     match RState.open shp shx with
     | .error e => pure ("open " ++ showROut e)
     | .ok st =>
+      let toOp : String × Nat → Option (RState → ROp) := fun op =>
+        match op.1 with
+        | "it" => some (fun st => .iter (if op.2 = 99 then st.fuel else op.2))
+        | "nth" => some (fun _ => .nth op.2)
+        | "seek" => some (fun _ => .seek op.2)
+        | "count" => some (fun _ => .count)
+        | "hint" => some (fun _ => .hint)
+        | _ => none
+      let showRes : RRes → String
+        | .items rs => "it[" ++ String.intercalate " ; " (rs.map showROut) ++ "]"
+        | .one r => showROut r
+        | .hintRes (some n) => s!"hint {n}"
+        | .hintRes none => "hint none"
       let (_, outs) := ops.foldl (fun (acc : RState × List String) (op : String × Nat) =>
         let (st, outs) := acc
-        match op.1 with
-        | "it" =>   -- a fresh iterator, pulled `k` times (k = 99 means: until it ends)
-          let fuel := if op.2 = 99 then st.fuel else op.2
-          let (st', rs) := st.iterAll o tg fuel
-          (st', ("it[" ++ String.intercalate " ; " (rs.map showROut) ++ "]") :: outs)
-        | "nth" => let (st', r) := st.readNth o tg op.2; (st', showROut r :: outs)
-        | "seek" => let (st', r) := st.seek op.2; (st', showROut r :: outs)
-        | "count" => (st, showROut st.shapeCount :: outs)
-        | "hint" =>   -- size_hint of a fresh iterator
-          let h := match st.index with
-            | some idx => s!"hint {idx.length - st.nextShape}"
-            | none => "hint none"
-          (st, h :: outs)
-        | _ => (st, "bad-op" :: outs)) (st, [])
+        match toOp op with
+        | some f => let (st', r) := st.step o tg (f st); (st', showRes r :: outs)
+        | none => (st, "bad-op" :: outs)) (st, [])
       pure ("open ok ; " ++ String.intercalate " ; " outs.reverse)
   | "code" => do
     let c ← int
